@@ -12,7 +12,7 @@ import (
 )
 
 func newVC(prog *Program, specs *SpecDB, fn *ssa.Function, fc *FuncContract, heapInfo map[string]*HeapInfo) *VC {
-	vc := &VC{prog: prog, specs: specs, fn: fn, contract: fc, declared: map[string]bool{}, heapInfo: heapInfo,
+	vc := &VC{prog: prog, specs: specs, fn: fn, contract: fc, declared: map[string]bool{}, refTerms: map[string]bool{}, heapInfo: heapInfo,
 		trusted: map[string]bool{}, assumes: map[string]bool{}, inlined: map[string]bool{}, kindCount: map[string]int{},
 		strConsts: map[string]string{}, typeTags: map[string]int{}, errGlobals: map[string]bool{}}
 	if fn != nil {
@@ -134,9 +134,12 @@ func (vc *VC) errorSentinels(st *State) {
 	}
 	vc.assumes["package-level error variables are never reassigned, non-nil and pairwise distinct"] = true
 	var ts []string
+	vc.declare("is_errvar", "(declare-fun is_errvar (Int) Bool)")
 	for _, n := range names {
 		t := st.heaps[n]
 		vc.decls = append(vc.decls, fmt.Sprintf("(assert (> %s 0))", t.S))
+		// errvar(x) in contracts: x is the value of a package-level error variable
+		vc.decls = append(vc.decls, fmt.Sprintf("(assert (is_errvar %s))", t.S))
 		ts = append(ts, t.S)
 	}
 	if len(ts) > 1 {
@@ -205,6 +208,9 @@ func (vc *VC) runTop() {
 		}
 		for _, r := range vc.contract.Requires {
 			vc.assumeClause(tTrue, env, r)
+		}
+		for _, es := range vc.contract.EntrySets {
+			vc.ghostSet(env, st, es)
 		}
 		for _, u := range vc.contract.Uses {
 			vc.useLemma(fr, env, vc.contract.Pkg, u)
